@@ -23,10 +23,10 @@ Init == IF Mode = "quote"
 Alpha == IF cfg.mode = "low" THEN LowAlpha ELSE IF cfg.mode = "ctcp" THEN CtcpAlpha ELSE SplitAlpha
 ExtendAny == /\ phase = "build" /\ Len(text) < MaxLen
              /\ \E sym \in Alpha : text' = Append(text, sym)
-             /\ UNCHANGED <<cfg, phase, stream, err, q, back>>
+             /\ UNCHANGED <<cfg, phase, stream, lines, err, q, back>>
 Next == ExtendAny \/ SendPack \/ SendWords \/ SendRefuse \/ SendCharCount \/ DoQuote
 Spec == Init /\ [][Next]_vars
 
-Report == phase # "sent" \/ Accepts(cfg, text, stream, err)
+Report == phase # "sent" \/ Accepts(cfg, text, lines, err)
           \/ PrintT(<<"CEX", ToJson([kind |-> cfg.kind, user |-> cfg.user, limit |-> cfg.limit, text |-> text])>>)
 =============================================================================
